@@ -6,11 +6,11 @@ patch=$1; demo=$2; shift 2
 d=$(mktemp -d /tmp/ft-seed-XXXX)
 rsync -a --exclude .git --exclude tmp /repo/ $d/
 if [ "$demo" != "-" ]; then
-  (cd $d && /venv/bin/python $demo >/dev/null 2>&1); echo "demo on unchanged: exit $?"
+  (cd $d && PYTHONPATH=$d /venv/bin/python $demo >/dev/null 2>&1); echo "demo on unchanged: exit $?"
 fi
 (cd $d && patch -p1 -s < $patch) || { echo "PATCH FAILED"; rm -rf $d; exit 2; }
 if [ "$demo" != "-" ]; then
-  out=$(cd $d && /venv/bin/python $demo 2>&1); rc=$?; echo "$out" | tail -2; echo "demo on changed: exit $rc"
+  out=$(cd $d && PYTHONPATH=$d /venv/bin/python $demo 2>&1); rc=$?; echo "$out" | tail -2; echo "demo on changed: exit $rc"
 fi
 echo -n "pinned tests with change: "; /verif/tools/baseline.sh $d | head -3 | tr '\n' ' '; echo
 for p in "$@"; do
